@@ -516,7 +516,7 @@ func GenFamilyExpr(r *Rng, fam string) *Expr {
 // usual "small input" thresholds).
 func GenMediumDoc(r *Rng, tag string) string {
 	g := &DocGen{r: r, tag: tag, poison: 0, spare: 20, big: true, medium: true}
-	g.latePoison = r.P(1, 4) || strings.HasSuffix(tag, "!")
+	g.latePoison = (r.P(1, 4) || strings.HasSuffix(tag, "!")) && !strings.HasSuffix(tag, "~")
 	return g.val(tDoc, 0)
 }
 
